@@ -87,6 +87,9 @@ def dump_mir(work, target="bin", log=None):
 PROMOTED = {}   # 'path::promoted[N]' -> variant name (unit enum constants), refreshed by parse_mir
 
 
+NAMED_CONSTS = {}
+
+
 def parse_mir(text):
     fns = {}
     cur = None
@@ -96,6 +99,9 @@ def parse_mir(text):
         vm = re.search(r"_1 = (?:[\w:<>', ]*::)?(\w+);", m.group(2))
         if vm:
             PROMOTED[m.group(1)] = vm.group(1)
+    NAMED_CONSTS.clear()
+    for m in re.finditer(r"^const ([\w:]+): (\w+) = const (-?\d+)_(\w+);$", text, re.M):
+        NAMED_CONSTS[m.group(1).split("::")[-1]] = (int(m.group(3)), m.group(4))
     for raw in text.split("\n"):
         if raw.startswith("fn "):
             m = re.match(r"fn (.+?)\((.*)\) -> (.*) \{$", raw)
@@ -280,7 +286,8 @@ class Engine:
     # ---------------------------------------------------------------- relevance slicing
     MODELLED = re.compile(r"(::len$|as Deref>::deref$|as DerefMut>::deref_mut$|as AsRef<.*>>::as_ref$|::as_slice$|::as_path$|cmp::min::|cmp::max::|"
                           r"::saturating_sub$|::saturating_add$|::max_value$|as Try>::branch$|as FromResidual<.*>>::from_residual$|as Iterator>::position::<|"
-                          r"::iter$|as Index<.*>>::index$|as IntoIterator>::into_iter$|as Iterator>::enumerate$|as Iterator>::next$|as Partial(Eq|Ord)>::(eq|ne|ge|gt|le|lt)$)")
+                          r"::iter$|as Index<.*>>::index$|as IntoIterator>::into_iter$|as Iterator>::enumerate$|as Iterator>::next$|as Partial(Eq|Ord)>::(eq|ne|ge|gt|le|lt)$|"
+                          r"Option::<\w+>::unwrap_or$|Option::<\w+>::unwrap_or_default$)")
 
     def compute_tracked(self, seeds, extra_modelled=None):
         """Locals (and, for aggregates built once by an aggregate rvalue, individual fields) whose
@@ -646,6 +653,11 @@ class Engine:
         m = re.match(r"const (-?\d+)_(\w+)$", s)
         if m and m.group(2) in INT_W:
             return z3.BitVecVal(int(m.group(1)), INT_W[m.group(2)]), None, m.group(2)
+        m = re.match(r"const ([A-Za-z_][\w:]*)$", s)
+        if m and m.group(1).split("::")[-1] in NAMED_CONSTS:
+            v, t = NAMED_CONSTS[m.group(1).split("::")[-1]]
+            if t in INT_W:
+                return z3.BitVecVal(v, INT_W[t]), None, t
         if s == "const true":
             return z3.BoolVal(True), None, "bool"
         if s == "const false":
@@ -1141,6 +1153,17 @@ class Engine:
             a, b = argv[0][0], argv[1][0]
             if z3.is_bv(a) and z3.is_bv(b):
                 return z3.If(z3.ULT(a + b, a), z3.BitVecVal(-1, a.size()), a + b)
+        # ---- Option<int>::unwrap_or / unwrap_or_default
+        um = re.search(r"Option::<(\w+)>::(unwrap_or|unwrap_or_default)$", c)
+        if um and um.group(1) in INT_W and argv and argv[0][1] is not None:
+            p = argv[0][1]
+            d = self.read_path(st, p + "#disc", "isize")
+            pay = self.read_path(st, p + "@Some.0", um.group(1))
+            dflt = argv[1][0] if um.group(2) == "unwrap_or" else z3.BitVecVal(0, INT_W[um.group(1)])
+            if z3.is_bv(pay) and dflt is not None and z3.is_bv(dflt):
+                st.pc.append(z3.Or(d == 0, d == 1))
+                return z3.If(d == 1, pay, dflt)
+            return None
         # ---- Try / FromResidual on Result / Option
         if re.search(r"as Try>::branch$", c):
             p = argv[0][1]
